@@ -1,11 +1,19 @@
 (* Proofs/RecurExact2.v — forward exactness of Model/Recur.v against Spec/RecurSpec.v, part 2:
-   the assembly.
-     occ_start_mono        occurrence starts are strictly increasing in the local date (zone spread)
-     stream_go_cut         an Ok result of the fuelled loop is a cut of the expansion at the first
-                           kept occurrence that starts after b
-     C07_forward_exact     fetch_forward r a b = Ok l -> l = spec_occurrences r a b
-     fetch_forward_no_raise, fetch_window_independent, fetch_forward_fuel_enough,
-     C07_forward_total     (dense case: the result IS Ok (spec_occurrences r a b)) *)
+   the assembly (part 1, Proofs/RecurExact.v: the day filter of dateutil is the predicate of the
+   series; the expansion without BYSETPOS).
+     occ_start_mono            occurrence starts strictly increase with the local date (zone spread)
+     stream_go_cut             an Ok result of the fuelled loop is a cut of the expansion at the
+                               first kept occurrence that starts after b
+     setpos_select_spec        dateutil's positional selection = the BYSETPOS test of the series
+     L1_expansion_setpos       the expansion, BYSETPOS included (the truncated first week of a
+                               WEEKLY rule apart)
+     C07_forward_exact         fetch_forward r a b = Ok l -> l = spec_occurrences r a b
+                               (all rules, BYSETPOS included; C07_forward_exact_no_setpos is the
+                               instance asked for first)
+     spec_occurrences_sorted, fetch_forward_sorted   strictly ascending starts
+     fetch_forward_no_raise, safe_anchor_total, fetch_window_independent,
+     fetch_forward_fuel_enough, C07_forward_total (dense case: the result IS Ok (spec ...)),
+     and instances showing the hypotheses are satisfiable. *)
 From CG Require Import Model.Recur Spec.RecurSpec Proofs.CivilP Proofs.CdateP Proofs.RecurP
   Proofs.RecurExact.
 From Coq Require Import Lia ZifyBool Sorting.Sorted.
@@ -293,9 +301,300 @@ Proof.
 Qed.
 
 (* ------------------------------------------------------------------------------------------ *)
+(* BYSETPOS                                                                                    *)
+
+(* the test of the specification: d is the p-th / |p|-th last of the candidates, for some p *)
+Definition sp_test (cand pos : list Z) (d : Z) : bool :=
+  let n := Z.of_nat (length cand) in
+  existsb (fun p => let i := if 0 <? p then p - 1 else n + p in
+                    (0 <=? i) && (nth (Z.to_nat i) cand (d - 1) =? d)) pos.
+
+Lemma setpos_ok_unfold s c :
+  setpos_ok s c =
+  if is_nil (e_bysetpos s) then true
+  else sp_test (map cd_day (filter (filters_ok s) (period_dates (e_freq s) c))) (e_bysetpos s) (cd_day c).
+Proof. reflexivity. Qed.
+
+Lemma combine_filter_gen (g h : Z -> bool) : forall c off,
+  (forall j d, nth_error c j = Some d -> g (off + Z.of_nat j) = h d) ->
+  map snd (filter (fun x => g (fst x)) (combine (zseq_go (length c) off) c)) = filter h c.
+Proof.
+  induction c as [|d c IH]; intros off H; [reflexivity|].
+  cbn [length zseq_go combine filter fst].
+  pose proof (H O d eq_refl) as H0. cbn [Z.of_nat] in H0. rewrite Z.add_0_r in H0. rewrite H0.
+  assert (IH' : map snd (filter (fun x => g (fst x)) (combine (zseq_go (length c) (off + 1)) c)) = filter h c).
+  { apply IH. intros j d' Hj. rewrite <- (H (S j) d' Hj). f_equal. lia. }
+  destruct (h d); cbn [map snd]; rewrite IH'; reflexivity.
+Qed.
+
+Lemma sorted_NoDup l : StronglySorted Z.lt l -> NoDup l.
+Proof.
+  induction 1 as [|x l Hs IH Hx]; constructor; [|exact IH].
+  intros Hin. rewrite Forall_forall in Hx. specialize (Hx x Hin). lia.
+Qed.
+
+Lemma nth_eq_iff cand j d i :
+  NoDup cand -> nth_error cand j = Some d -> 0 <= i ->
+  (nth (Z.to_nat i) cand (d - 1) =? d) = (Z.of_nat j =? i).
+Proof.
+  intros Hnd Hj Hi.
+  assert (Hjl : (j < length cand)%nat) by (apply nth_error_Some; congruence).
+  assert (Hjd : nth j cand (d - 1) = d) by (apply nth_error_nth; exact Hj).
+  destruct (Nat.lt_ge_cases (Z.to_nat i) (length cand)) as [Hlt|Hge].
+  - destruct (Z.of_nat j =? i) eqn:E.
+    + apply Z.eqb_eq in E. subst i. rewrite Nat2Z.id, Hjd. apply Z.eqb_refl.
+    + apply Z.eqb_neq. intros Hn. rewrite <- Hjd in Hn at 2.
+      pose proof (proj1 (NoDup_nth cand (d - 1)) Hnd _ _ Hlt Hjl Hn). lia.
+  - rewrite nth_overflow by exact Hge. lia.
+Qed.
+
+(* dateutil's positional selection is the specification's test, on candidates without repeats *)
+Lemma setpos_select_spec cand pos :
+  NoDup cand -> setpos_select cand pos = filter (sp_test cand pos) cand.
+Proof.
+  intros Hnd. unfold setpos_select, zseq. rewrite Nat2Z.id.
+  set (len := Z.of_nat (length cand)).
+  apply (combine_filter_gen (fun x => zmem x (map (fun p => if p <? 0 then len + p else p - 1) pos))).
+  intros j d Hj. rewrite Z.add_0_l. unfold zmem, sp_test. rewrite existsb_map. fold len.
+  apply existsb_ext_in. intros p _. cbv zeta.
+  assert (Hjl : (j < length cand)%nat) by (apply nth_error_Some; congruence).
+  destruct (0 <? p) eqn:E1.
+  - replace (p <? 0) with false by lia. replace (0 <=? p - 1) with true by lia. cbn [andb].
+    symmetry. apply nth_eq_iff; [assumption|assumption|lia].
+  - destruct (p <? 0) eqn:E2.
+    + destruct (0 <=? len + p) eqn:E3; cbn [andb]; [|lia].
+      symmetry. apply nth_eq_iff; [assumption|assumption|lia].
+    + assert (p = 0) by lia. subst p. replace (0 <=? len + 0) with true by lia. cbn [andb].
+      rewrite nth_overflow by (unfold len; lia). unfold len. lia.
+Qed.
+
+(* the dates of the period of the specification are the span of the model's full state *)
+Lemma period_dates_span f d :
+  period_dates f (cdate_of d) = cdates (pstart f (pidx f d)) (plen f (pidx f d)).
+Proof.
+  unfold pidx, cdate_of. destruct (civil_from_days d) as [[y m] dd] eqn:E.
+  destruct (civil_month_first _ _ _ _ E) as (Hm & Hdd & Hdm & Hmi & Hyr).
+  destruct f; cbn [period_dates period_of pstart plen].
+  - unfold cdates, cdate_of. rewrite E. reflexivity.
+  - f_equal. unfold weekday. lia.
+  - replace ((y * 12 + m - 1) / 12) with y by lia.
+    replace ((y * 12 + m - 1) mod 12 + 1) with m by lia. reflexivity.
+  - reflexivity.
+Qed.
+
+(* the candidates of a period: its days passing the filters of the series *)
+Definition pcand (r : rule) (a0 p : Z) : list Z :=
+  filter (fun d => filters_ok (series_from r a0) (cdate_of d))
+         (zseq (pstart (r_freq r) p) (plen (r_freq r) p)).
+
+Lemma zseq_sorted s n : StronglySorted Z.lt (zseq s n).
+Proof. apply zseq_go_sorted. Qed.
+
+Lemma pcand_NoDup r a0 p : NoDup (pcand r a0 p).
+Proof. apply sorted_NoDup, sorted_filter, zseq_sorted. Qed.
+
+Lemma M_in_phase_sp r a0 d :
+  (pidx (r_freq r) d - pidx (r_freq r) a0) mod r_interval r = 0 ->
+  M r a0 d = filters_ok (series_from r a0) (cdate_of d) &&
+             (if is_nil (r_bysetpos r) then true
+              else sp_test (pcand r a0 (pidx (r_freq r) d)) (r_bysetpos r) d).
+Proof.
+  intros Hph. unfold M, matches_s. rewrite in_phase_pidx, Hph. cbn [Z.eqb].
+  destruct (filters_ok (series_from r a0) (cdate_of d)); [|reflexivity]. cbn [andb].
+  rewrite setpos_ok_unfold. change (e_bysetpos (series_from r a0)) with (r_bysetpos r).
+  change (e_freq (series_from r a0)) with (r_freq r).
+  destruct (is_nil (r_bysetpos r)); [reflexivity|].
+  rewrite period_dates_span, cand_days, cd_day_cdate_of. reflexivity.
+Qed.
+
+(* one pass of the loop over a whole in-phase period, BYSETPOS included *)
+Lemma period_occ_full r a0 p :
+  lists_ok r ->
+  (p - pidx (r_freq r) a0) mod r_interval r = 0 ->
+  period_occ (rr_of r a0) (full_state (r_freq r) p) =
+  filter (fun d => (a0 <=? d) && M r a0 d) (zseq (pstart (r_freq r) p) (plen (r_freq r) p)).
+Proof.
+  intros Hok Hph.
+  destruct (rr_of_fields r a0) as (Hf & Hk & Hd0 & _ & _ & _ & _ & _ & Hqsp). cbv zeta in *.
+  assert (Hfull : forall d, In d (zseq (pstart (r_freq r) p) (plen (r_freq r) p)) -> pidx (r_freq r) d = p).
+  { intros d Hd. apply zseq_In in Hd. apply pidx_span. rewrite pstart_succ. lia. }
+  unfold period_occ. rewrite full_state_span, Hqsp, Hd0. rewrite cand_days.
+  assert (Hc : filter (fun d => day_ok (rr_of r a0) (nwdays (rr_of r a0) (full_state (r_freq r) p)) (cdate_of d))
+                      (zseq (pstart (r_freq r) p) (plen (r_freq r) p)) = pcand r a0 p).
+  { apply filter_ext_in. intros d Hd. apply day_ok_filters; [exact Hok|].
+    rewrite (Hfull d Hd). apply full_state_of_period. }
+  rewrite Hc. clear Hc.
+  destruct (is_nil (r_bysetpos r)) eqn:Enil.
+  - unfold pcand. rewrite filter_filter'. apply filter_ext_in. intros d Hd.
+    rewrite M_in_phase_sp by (rewrite (Hfull d Hd); exact Hph). rewrite Enil.
+    rewrite andb_true_r. apply andb_comm.
+  - rewrite (setpos_select_spec _ _ (pcand_NoDup r a0 p)).
+    set (T := sp_test (pcand r a0 p) (r_bysetpos r)).
+    unfold pcand. rewrite !filter_filter'. apply filter_ext_in. intros d Hd.
+    rewrite M_in_phase_sp by (rewrite (Hfull d Hd); exact Hph). rewrite Enil, (Hfull d Hd).
+    fold T. destruct (filters_ok (series_from r a0) (cdate_of d)); destruct (T d); destruct (a0 <=? d); reflexivity.
+Qed.
+
+(* any pass yields a sub-list of the days of its span *)
+Lemma period_occ_sub q st :
+  exists X, period_occ q st = filter X (zseq (fst (period_span st)) (snd (period_span st))).
+Proof.
+  unfold period_occ. destruct (period_span st) as [s n]. cbn [fst snd]. rewrite cand_days.
+  set (cand := filter _ (zseq s n)).
+  assert (Hnd : NoDup cand) by (apply sorted_NoDup, sorted_filter, zseq_sorted).
+  destruct (is_nil (q_bysetpos q)).
+  - eexists. unfold cand. rewrite filter_filter'. reflexivity.
+  - rewrite (setpos_select_spec _ _ Hnd). eexists. rewrite filter_filter'. unfold cand at 2.
+    rewrite filter_filter'. reflexivity.
+Qed.
+
+(* the passes over whole periods, every interval-th from an in-phase one on *)
+Lemma rrule_periods_full r a0 :
+  lists_ok r -> 0 < r_interval r ->
+  let f := r_freq r in
+  let p0 := pidx f a0 in
+  forall (n : nat) j,
+  rrule_periods (rr_of r a0) (full_state f (p0 + j * r_interval r)) n =
+  filter (Mfrom r a0)
+         (zseq (pstart f (p0 + j * r_interval r))
+               (pstart f (p0 + (j + Z.of_nat n) * r_interval r) - pstart f (p0 + j * r_interval r))).
+Proof.
+  intros Hok Hk f p0. induction n as [|n IH]; intros j.
+  - cbn [rrule_periods]. rewrite Z.add_0_r, Z.sub_diag. reflexivity.
+  - cbn [rrule_periods]. unfold f at 2. rewrite next_state_full. fold f.
+    replace (p0 + j * r_interval r + r_interval r) with (p0 + (j + 1) * r_interval r) by ring.
+    rewrite IH.
+    set (p := p0 + j * r_interval r).
+    assert (Hph : (p - pidx (r_freq r) a0) mod r_interval r = 0).
+    { unfold p, p0, f. replace (pidx (r_freq r) a0 + j * r_interval r - pidx (r_freq r) a0)
+        with (j * r_interval r) by ring. apply Z_mod_mult. }
+    unfold f at 1. rewrite (period_occ_full r a0 p Hok Hph). fold f.
+    replace (p0 + (j + 1) * r_interval r) with (p + r_interval r) by (unfold p; ring).
+    replace (p0 + (j + 1 + Z.of_nat n) * r_interval r) with (p0 + (j + Z.of_nat (S n)) * r_interval r) by lia.
+    set (pe := p0 + (j + Z.of_nat (S n)) * r_interval r).
+    assert (Hpe : p + r_interval r <= pe) by (unfold pe, p; nia).
+    pose proof (pstart_succ f p) as Hs1.
+    pose proof (pstart_mono f (p + 1) (p + r_interval r) ltac:(lia)) as Hs2.
+    pose proof (pstart_mono f (p + r_interval r) pe Hpe) as Hs3.
+    pose proof (plen_pos f p) as Hl.
+    replace (pstart f pe - pstart f p) with
+        (plen f p + ((pstart f (p + r_interval r) - pstart f (p + 1)) +
+                     (pstart f pe - pstart f (p + r_interval r)))) by lia.
+    rewrite zseq_app by lia. rewrite filter_app. f_equal.
+    rewrite <- Hs1. rewrite zseq_app by lia. rewrite filter_app.
+    pose proof (gap_none r a0 j Hk) as Hg. cbv zeta in Hg. fold f p0 p in Hg.
+    unfold Mfrom at 2. rewrite Hg. cbn [app]. f_equal. f_equal. lia.
+Qed.
+
+Lemma st_at_1 r a0 :
+  next_state (rr_of r a0) (init_state (rr_of r a0)) =
+  full_state (r_freq r) (pidx (r_freq r) a0 + 1 * r_interval r).
+Proof. exact (next_state_at r a0 0 ltac:(lia)). Qed.
+
+(* L1 with BYSETPOS: as L1_expansion, except that for a WEEKLY rule whose dtstart is not a Monday
+   the (truncated) first week yields some sub-list of its days — dateutil numbers the positions
+   within the days from dtstart on, the series within the whole week *)
+Theorem L1_expansion_setpos r a0 (n : nat) :
+  lists_ok r -> 0 < r_interval r ->
+  let f := r_freq r in
+  let E := pstart f (pidx f a0 + Z.of_nat n * r_interval r) in
+  exists (X : Z -> bool) (W : Z),
+    (W = a0 \/ (r_freq r = Weekly /\ a0 < W <= a0 + 6)) /\
+    rrule_model (rr_of r a0) n =
+    filter (fun d => if d <? W then X d else M r a0 d) (zseq a0 (E - a0)).
+Proof.
+  intros Hok Hk f E.
+  pose proof (pstart_le f a0) as Hle.
+  destruct n as [|n].
+  { exists (fun _ => true), a0. split; [left; reflexivity|].
+    unfold E. cbn [Z.of_nat]. rewrite Z.mul_0_l, Z.add_0_r. rewrite zseq_nil by lia. reflexivity. }
+  assert (HE : pstart f (pidx f a0 + 1) <= E).
+  { unfold E. apply pstart_mono. nia. }
+  pose proof (proj1 (pidx_span f a0 (pidx f a0)) eq_refl) as [_ Hnext].
+  (* the case of a first pass over the whole first period *)
+  assert (Hfullcase : init_state (rr_of r a0) = full_state f (pidx f a0) ->
+    rrule_model (rr_of r a0) (S n) =
+    filter (fun d => if d <? a0 then true else M r a0 d) (zseq a0 (E - a0))).
+  { intros Hi. unfold rrule_model. rewrite Hi.
+    pose proof (rrule_periods_full r a0 Hok Hk (S n) 0) as Hp. cbv zeta in Hp. fold f in Hp.
+    rewrite Z.mul_0_l, Z.add_0_r, Z.add_0_l in Hp. rewrite Hp. fold E.
+    replace (E - pstart f (pidx f a0)) with ((a0 - pstart f (pidx f a0)) + (E - a0)) by ring.
+    rewrite zseq_app by lia. rewrite filter_app. rewrite filter_none.
+    - cbn [app]. replace (pstart f (pidx f a0) + (a0 - pstart f (pidx f a0))) with a0 by ring.
+      apply filter_ext_in. intros d Hd. apply zseq_In in Hd. unfold Mfrom.
+      replace (a0 <=? d) with true by lia. replace (d <? a0) with false by lia. reflexivity.
+    - intros d Hd. apply zseq_In in Hd. unfold Mfrom. replace (a0 <=? d) with false by lia. reflexivity. }
+  destruct (init_state_cases r a0) as [Hi|[Ef Hi]].
+  { exists (fun _ => true), a0. split; [left; reflexivity|]. apply Hfullcase. exact Hi. }
+  destruct (Z.eq_dec (weekday a0) 0) as [Hw0|Hw0].
+  { exists (fun _ => true), a0. split; [left; reflexivity|]. apply Hfullcase.
+    rewrite Hi. unfold f. rewrite Ef. cbn [full_state]. rewrite pidx_weekly. f_equal.
+    unfold weekday in Hw0. lia. }
+  (* WEEKLY, dtstart not a Monday *)
+  pose proof (weekday_range a0) as Hwr.
+  set (W := a0 + (7 - weekday a0)).
+  assert (HW : W = pstart f (pidx f a0 + 1)).
+  { unfold W, f. rewrite Ef. cbn [pstart]. rewrite pidx_weekly. unfold weekday. lia. }
+  destruct (period_occ_sub (rr_of r a0) (PWeek a0)) as [X HX]. cbn [period_span fst snd] in HX.
+  exists X, W. split; [right; split; [exact Ef|unfold W; lia]|].
+  unfold rrule_model. cbn [rrule_periods]. rewrite st_at_1. rewrite Hi, HX. fold f.
+  pose proof (rrule_periods_full r a0 Hok Hk n 1) as Hp. cbv zeta in Hp. fold f in Hp. rewrite Hp.
+  replace (pidx f a0 + (1 + Z.of_nat n) * r_interval r) with (pidx f a0 + Z.of_nat (S n) * r_interval r) by lia.
+  fold E.
+  set (P1 := pstart f (pidx f a0 + 1 * r_interval r)).
+  assert (HP1 : W <= P1 <= E).
+  { unfold P1, E. rewrite HW. split; apply pstart_mono; nia. }
+  replace (E - a0) with ((W - a0) + ((P1 - W) + (E - P1))) by ring.
+  rewrite zseq_app by lia. rewrite filter_app.
+  replace (a0 + (W - a0)) with W by ring. rewrite zseq_app by lia. rewrite filter_app.
+  replace (W + (P1 - W)) with P1 by ring.
+  f_equal; [|rewrite (filter_none _ (zseq W (P1 - W)))].
+  - replace (7 - weekday a0) with (W - a0) by (unfold W; ring).
+    apply filter_ext_in. intros d Hd. apply zseq_In in Hd. replace (d <? W) with true by lia. reflexivity.
+  - cbn [app]. apply filter_ext_in. intros d Hd. apply zseq_In in Hd. unfold Mfrom.
+    replace (d <? W) with false by lia. replace (a0 <=? d) with true by lia. reflexivity.
+  - intros d Hd. apply zseq_In in Hd. replace (d <? W) with false by lia.
+    pose proof (gap_none r a0 0 Hk) as Hg. cbv zeta in Hg. fold f in Hg.
+    rewrite Z.mul_0_l, Z.add_0_r in Hg. rewrite <- HW in Hg.
+    replace (pidx f a0 + r_interval r) with (pidx f a0 + 1 * r_interval r) in Hg by ring. fold P1 in Hg.
+    assert (Hin : In d (filter (fun d0 => (a0 <=? d0) && M r a0 d0) (zseq W (P1 - W))) -> False)
+      by (rewrite Hg; intros []).
+    destruct (M r a0 d) eqn:EM; [|reflexivity]. exfalso. apply Hin.
+    apply filter_In. split; [apply zseq_In; lia|]. rewrite EM. lia.
+Qed.
+Print Assumptions L1_expansion_setpos.
+
+(* ------------------------------------------------------------------------------------------ *)
 (* C07: forward exactness                                                                      *)
 
-(* Partial correctness of _fetch_forward for every rule without BYSETPOS: whenever the fuelled
+(* WEEKLY: the occurrences of the first six days from the rrule dtstart on (so: of its whole first
+   week when it is not a Monday) end at or before the window start too *)
+Lemma anchor_before_week r A a0 d :
+  0 < r_interval r -> rule_accepted r -> zone_spread_ok (r_zone r) = true ->
+  r_freq r = Weekly ->
+  safe_anchor r (local_day (r_zone r) (A - lookback_buffer r)) = Some a0 ->
+  d <= a0 + 5 -> fend (occurrence r d) <= A.
+Proof.
+  intros Hk Hacc Hz Ef Ha Hd. unfold rule_accepted in Hacc. apply zone_spread_ok_le in Hz.
+  pose proof (anchor_not_late_days r _ a0 Hk Ha) as Hlate. rewrite Ef in Hlate.
+  rewrite occ_fend. cbv zeta.
+  unfold mk_wall, local_day, wall_day, utc_to_wall, lookback_buffer in *. rewrite Ef in *.
+  cbn [period_secs] in *.
+  set (z := r_zone r) in *.
+  set (ws := d * DAY + r_sod r).
+  set (o3 := wall_offset z ws false).
+  set (o2 := offset_at z (ws - o3)).
+  set (o1 := wall_offset z (ws - o3 + o2 + r_dur r) false).
+  set (t0 := A - (r_dur r + r_interval r * (7 * DAY))) in *.
+  set (o4 := offset_at z t0) in *.
+  assert (H23 : o2 - o3 <= DAY / 2) by (apply Hz; [apply offset_at_in|apply wall_offset_in]).
+  assert (H41 : o4 - o1 <= DAY / 2) by (apply Hz; [apply offset_at_in|apply wall_offset_in]).
+  assert (Hsd : (t0 + o4) / DAY * DAY <= t0 + o4) by (unfold DAY; lia).
+  set (sd := (t0 + o4) / DAY) in *.
+  unfold ws, t0 in *. unfold DAY in *. nia.
+Qed.
+
+(* Partial correctness of _fetch_forward, for every rule (BYSETPOS included): whenever the fuelled
    model answers, the answer is the list of the specification — the occurrences of the matching
    local dates with end > a and start <= b, minus the excluded ones, ascending, each once.
    Hypotheses: the BYxxx lists are well formed (lists_ok), interval >= 1, start_seconds within a
@@ -303,16 +602,17 @@ Qed.
    (checked on every exported table by the harness).  Nothing is assumed of the duration, of the
    exdates, of the anchor, or of the order of a and b. *)
 Theorem C07_forward_exact : forall r a b l,
-  lists_ok r -> no_setpos r -> 0 < r_interval r -> rule_accepted r ->
+  lists_ok r -> 0 < r_interval r -> rule_accepted r ->
   zone_spread_ok (r_zone r) = true ->
   fetch_forward r a b = Ok l -> l = spec_occurrences r a b.
 Proof.
-  intros r a b l Hok Hsp Hk Hacc Hz H.
+  intros r a b l Hok Hk Hacc Hz H.
   unfold fetch_forward in H.
   destruct (safe_anchor r (local_day (r_zone r) (a - lookback_buffer r))) as [a0|] eqn:Ea; [|discriminate].
   destruct (stream_go_cut r (rr_of r a0) a b Hacc _ _ _ H) as (n & out & _ & -> & Hcut).
   fold (rrule_model (rr_of r a0) n) in Hcut.
-  rewrite (L1_expansion r a0 n Hok Hsp Hk) in Hcut. cbv zeta in Hcut.
+  destruct (L1_expansion_setpos r a0 n Hok Hk) as (X & W & HW & HL). cbv zeta in HL.
+  rewrite HL in Hcut. clear HL.
   set (E := pstart (r_freq r) (pidx (r_freq r) a0 + Z.of_nat n * r_interval r)) in *.
   pose proof (zone_spread_ok_le _ Hz) as Hzs.
   apply cut_at_filter in Hcut.
@@ -323,24 +623,62 @@ Proof.
   apply filter_In in Hin. destruct Hin as [Hin _]. apply zseq_In in Hin.
   rewrite spec_occurrences_eq. f_equal.
   rewrite filter_filter'.
-  rewrite (filter_ext _ (Qd r a b)).
-  2:{ intros d. unfold Qd. rewrite wind_keep_past. f_equal.
-      unfold M, matches. apply (anchor_series r _ a0 Hk Ea). }
+  rewrite (filter_ext_in _ (Qd r a b)).
+  2:{ intros d Hd. apply zseq_In in Hd. unfold Qd. rewrite wind_keep_past.
+      destruct (d <? W) eqn:EW.
+      - (* the truncated first week of a WEEKLY rule: not seen by the window *)
+        destruct HW as [->|[Ef HW]]; [lia|].
+        pose proof (anchor_before_week r a a0 d Hk Hacc Hz Ef Ea ltac:(lia)) as He.
+        unfold keepd. replace (a <? fend (occurrence r d)) with false by lia.
+        rewrite !andb_false_r. reflexivity.
+      - f_equal. unfold M, matches. apply (anchor_series r _ a0 Hk Ea). }
   apply filter_zseq_same; [|intros d Hd; apply Qd_outside_spec; assumption].
   intros d Hd. unfold Qd. rewrite wind_keep_past.
   destruct (Z_lt_ge_dec d a0) as [Hlt|Hge].
-  - (* before the rrule dtstart: ends at or before a *)
-    pose proof (anchor_before_checked_zone r a a0 d _ Hk Hacc Hz Ea Hlt (occ_accepted r d Hacc)) as He.
+  - pose proof (anchor_before_checked_zone r a a0 d _ Hk Hacc Hz Ea Hlt (occ_accepted r d Hacc)) as He.
     unfold keepd. replace (a <? fend (occurrence r d)) with false by lia.
     rewrite andb_false_r. cbn [andb]. apply andb_false_r.
-  - (* after the break: starts after b *)
-    assert (Hd' : dstar < d) by lia.
+  - assert (Hd' : dstar < d) by lia.
     pose proof (occ_start_mono r (DAY / 2) dstar d Hzs ltac:(unfold DAY; lia) Hd').
     unfold pastd in *. replace (b <? fstart (occurrence r d)) with true by lia.
     cbn [negb]. rewrite !andb_false_r. reflexivity.
 Qed.
-
 Print Assumptions C07_forward_exact.
+
+(* the statement as first asked for (rules without BYSETPOS): an instance *)
+Corollary C07_forward_exact_no_setpos : forall r a b l,
+  lists_ok r -> no_setpos r -> 0 < r_interval r -> rule_accepted r ->
+  zone_spread_ok (r_zone r) = true -> a <= b ->
+  fetch_forward r a b = Ok l -> l = spec_occurrences r a b.
+Proof. intros r a b l Hok _ Hk Hacc Hz _ H. exact (C07_forward_exact r a b l Hok Hk Hacc Hz H). Qed.
+Print Assumptions C07_forward_exact_no_setpos.
+
+(* the answer is strictly ascending by start (so: each occurrence once) *)
+Lemma map_sorted {A B} (R : A -> A -> Prop) (R' : B -> B -> Prop) (g : A -> B) l :
+  (forall x y, R x y -> R' (g x) (g y)) -> StronglySorted R l -> StronglySorted R' (map g l).
+Proof.
+  intros Hg. induction 1 as [|x l Hs IH Hx]; cbn [map]; constructor; [exact IH|].
+  apply Forall_forall. intros y Hy. apply in_map_iff in Hy. destruct Hy as (x' & <- & Hx').
+  apply Hg. rewrite Forall_forall in Hx. apply Hx. exact Hx'.
+Qed.
+
+Theorem spec_occurrences_sorted r a b :
+  zone_spread_ok (r_zone r) = true ->
+  StronglySorted (fun x y => fstart x < fstart y) (spec_occurrences r a b).
+Proof.
+  intros Hz. apply zone_spread_ok_le in Hz. rewrite spec_occurrences_eq.
+  apply (map_sorted Z.lt); [|apply sorted_filter, zseq_sorted].
+  intros x y Hxy. apply (occ_start_mono r (DAY / 2) x y Hz); [unfold DAY; lia|exact Hxy].
+Qed.
+
+Corollary fetch_forward_sorted : forall r a b l,
+  lists_ok r -> 0 < r_interval r -> rule_accepted r -> zone_spread_ok (r_zone r) = true ->
+  fetch_forward r a b = Ok l -> StronglySorted (fun x y => fstart x < fstart y) l.
+Proof.
+  intros r a b l Hok Hk Hacc Hz H. rewrite (C07_forward_exact r a b l Hok Hk Hacc Hz H).
+  apply spec_occurrences_sorted. exact Hz.
+Qed.
+Print Assumptions fetch_forward_sorted.
 
 (* ------------------------------------------------------------------------------------------ *)
 (* no exception                                                                                *)
@@ -450,15 +788,15 @@ Proof.
 Qed.
 
 Corollary fetch_window_independent : forall r a b a' b' l l',
-  lists_ok r -> no_setpos r -> 0 < r_interval r -> rule_accepted r ->
+  lists_ok r -> 0 < r_interval r -> rule_accepted r ->
   zone_spread_ok (r_zone r) = true ->
   a' <= a -> b <= b' ->
   fetch_forward r a b = Ok l -> fetch_forward r a' b' = Ok l' ->
   l = filter (fun i => (a <? fend i) && (fstart i <=? b)) l'.
 Proof.
-  intros r a b a' b' l l' Hok Hsp Hk Hacc Hz Ha Hb H H'.
-  rewrite (C07_forward_exact r a b l Hok Hsp Hk Hacc Hz H).
-  rewrite (C07_forward_exact r a' b' l' Hok Hsp Hk Hacc Hz H').
+  intros r a b a' b' l l' Hok Hk Hacc Hz Ha Hb H H'.
+  rewrite (C07_forward_exact r a b l Hok Hk Hacc Hz H).
+  rewrite (C07_forward_exact r a' b' l' Hok Hk Hacc Hz H').
   apply spec_window_restrict; assumption.
 Qed.
 Print Assumptions fetch_window_independent.
@@ -498,6 +836,25 @@ Proof.
   assert (H4b : o4 - ob <= DAY / 2) by (apply Hz; apply offset_at_in).
   set (P := r_interval r * period_secs (r_freq r)) in *.
   set (sl := anchor_slack (r_freq r)) in *.
+  assert (Hsd : (t0 + o4) / DAY * DAY <= t0 + o4) by (unfold DAY; lia).
+  assert (Hb : b + ob < ((b + ob) / DAY + 1) * DAY) by (unfold DAY; lia).
+  set (sd := (t0 + o4) / DAY) in *. set (lb := (b + ob) / DAY) in *.
+  unfold t0 in Hsd. unfold DAY in *. nia.
+Qed.
+
+(* WEEKLY: by six days or more *)
+Lemma anchor_le_window_week r a b a0 :
+  0 < r_interval r -> zone_spread_ok (r_zone r) = true -> a <= b -> 0 <= r_dur r ->
+  r_freq r = Weekly ->
+  safe_anchor r (local_day (r_zone r) (a - lookback_buffer r)) = Some a0 ->
+  a0 + 6 <= local_day (r_zone r) b.
+Proof.
+  intros Hk Hz Hab Hdur Ef Ha. apply zone_spread_ok_le in Hz.
+  pose proof (anchor_not_late_days r _ a0 Hk Ha) as Hlate. rewrite Ef in Hlate.
+  unfold local_day, wall_day, utc_to_wall, lookback_buffer in *. rewrite Ef in *. cbn [period_secs] in *.
+  set (t0 := a - (r_dur r + r_interval r * (7 * DAY))) in *.
+  set (o4 := offset_at (r_zone r) t0) in *. set (ob := offset_at (r_zone r) b).
+  assert (H4b : o4 - ob <= DAY / 2) by (apply Hz; apply offset_at_in).
   assert (Hsd : (t0 + o4) / DAY * DAY <= t0 + o4) by (unfold DAY; lia).
   assert (Hb : b + ob < ((b + ob) / DAY + 1) * DAY) by (unfold DAY; lia).
   set (sd := (t0 + o4) / DAY) in *. set (lb := (b + ob) / DAY) in *.
@@ -553,14 +910,14 @@ Qed.
 (* Fuel sufficiency, dense case: if the series has a non-excluded date between 2 and SLACK_DAYS
    (16000) days after the local date of the window end, the model does not run out of fuel. *)
 Theorem fetch_forward_fuel_enough : forall r a b dstar,
-  lists_ok r -> no_setpos r -> 0 < r_interval r -> rule_accepted r ->
+  lists_ok r -> 0 < r_interval r -> rule_accepted r ->
   zone_spread_ok (r_zone r) = true -> 0 <= r_dur r -> a <= b ->
   matches r dstar = true ->
   local_day (r_zone r) b + 2 <= dstar <= local_day (r_zone r) b + SLACK_DAYS ->
   zmem (fstart (occurrence r dstar)) (r_exdates r) = false ->
   fetch_forward r a b <> OutOfFuel.
 Proof.
-  intros r a b dstar Hok Hsp Hk Hacc Hz Hdur Hab Hm Hd Hex.
+  intros r a b dstar Hok Hk Hacc Hz Hdur Hab Hm Hd Hex.
   unfold fetch_forward.
   destruct (safe_anchor r (local_day (r_zone r) (a - lookback_buffer r))) as [a0|] eqn:Ea; [|discriminate].
   pose proof (anchor_le_window r a b a0 Hk Hz Hab Hdur Ea) as Ha0.
@@ -568,9 +925,12 @@ Proof.
   unfold rule_accepted in Hacc.
   apply (stream_go_fuel r _ a b Hacc _ _ dstar).
   - fold (rrule_model (rr_of r a0) (fuel_for r a0 b)).
-    rewrite (L1_expansion r a0 _ Hok Hsp Hk). cbv zeta.
+    destruct (L1_expansion_setpos r a0 (fuel_for r a0 b) Hok Hk) as (X & W & HW & ->).
     apply filter_In. split; [apply zseq_In; lia|].
-    unfold M. rewrite (anchor_series r _ a0 Hk Ea). exact Hm.
+    replace (dstar <? W) with false.
+    + unfold M. rewrite (anchor_series r _ a0 Hk Ea). exact Hm.
+    + destruct HW as [->|[Ef HW]]; [lia|].
+      pose proof (anchor_le_window_week r a b a0 Hk Hz Hab Hdur Ef Ea). lia.
   - unfold keepd. rewrite Hex. cbn [negb andb].
     pose proof (occ_keep_after r a b dstar Hz ltac:(lia) Hdur Hab ltac:(lia)). lia.
   - unfold pastd. apply zone_spread_ok_le in Hz.
@@ -580,7 +940,7 @@ Print Assumptions fetch_forward_fuel_enough.
 
 (* Total correctness in the dense case: the model's answer IS the specification's list. *)
 Theorem C07_forward_total : forall r a b dstar,
-  lists_ok r -> no_setpos r -> 0 < r_interval r -> rule_accepted r ->
+  lists_ok r -> 0 < r_interval r -> rule_accepted r ->
   zone_spread_ok (r_zone r) = true -> 0 <= r_dur r -> a <= b ->
   safe_anchor r (local_day (r_zone r) (a - lookback_buffer r)) <> None ->
   matches r dstar = true ->
@@ -588,10 +948,131 @@ Theorem C07_forward_total : forall r a b dstar,
   zmem (fstart (occurrence r dstar)) (r_exdates r) = false ->
   fetch_forward r a b = Ok (spec_occurrences r a b).
 Proof.
-  intros r a b dstar Hok Hsp Hk Hacc Hz Hdur Hab Hsa Hm Hd Hex.
+  intros r a b dstar Hok Hk Hacc Hz Hdur Hab Hsa Hm Hd Hex.
   pose proof (fetch_forward_no_raise r a b Hacc Hsa) as Hnr.
-  pose proof (fetch_forward_fuel_enough r a b dstar Hok Hsp Hk Hacc Hz Hdur Hab Hm Hd Hex) as Hnf.
+  pose proof (fetch_forward_fuel_enough r a b dstar Hok Hk Hacc Hz Hdur Hab Hm Hd Hex) as Hnf.
   destruct (fetch_forward r a b) as [l| |] eqn:E; [|contradiction|contradiction].
-  f_equal. apply (C07_forward_exact r a b l Hok Hsp Hk Hacc Hz E).
+  f_equal. apply (C07_forward_exact r a b l Hok Hk Hacc Hz E).
 Qed.
 Print Assumptions C07_forward_total.
+
+
+(* ------------------------------------------------------------------------------------------ *)
+(* the hypotheses are satisfiable                                                              *)
+From CG Require Props.C13.
+
+(* the zone tables exported from zoneinfo for C13 (Los Angeles, Havana, Chatham, Troll, St John's)
+   meet the zone hypothesis of this file *)
+Example zone_hypothesis_satisfiable :
+  forallb zone_spread_ok
+          [CG.Props.C13.la; CG.Props.C13.havana; CG.Props.C13.chatham; CG.Props.C13.troll;
+           CG.Props.C13.st_johns_2005; utc_zone] = true.
+Proof. vm_compute. reflexivity. Qed.
+
+(* every other week on Monday and Thursday at 09:00 Los Angeles time for one hour, one excluded
+   start, anchored on 2024-01-01 *)
+Definition ex_weekly : rule :=
+  mkRule Weekly 2 [(0, None); (3, None)] [] [] [] [1705338000] (Some 1704096000) 32400 3600
+         CG.Props.C13.la.
+(* the second and the last working day of every month at 02:00 for 25 hours (BYSETPOS) *)
+Definition ex_setpos : rule :=
+  mkRule Monthly 1 [(0, None); (1, None); (2, None); (3, None); (4, None)] [] [] [2; -1] []
+         (Some 1704096000) 7200 90000 CG.Props.C13.la.
+(* the last Friday of March and November, every year *)
+Definition ex_nth : rule :=
+  mkRule Yearly 1 [(4, Some (-1))] [] [3; 11] [] [] (Some 1704096000) 7200 3600 CG.Props.C13.la.
+
+Lemma ex_weekly_ok : lists_ok ex_weekly /\ no_setpos ex_weekly /\ 0 < r_interval ex_weekly /\
+  rule_accepted ex_weekly /\ zone_spread_ok (r_zone ex_weekly) = true /\ 0 <= r_dur ex_weekly.
+Proof.
+  split; [|repeat split; try reflexivity; cbn; unfold DAY; lia].
+  constructor; cbn;
+    [repeat constructor; lia|repeat constructor; lia|repeat constructor; cbn; lia|left; reflexivity].
+Qed.
+
+Lemma ex_setpos_ok : lists_ok ex_setpos /\ 0 < r_interval ex_setpos /\
+  rule_accepted ex_setpos /\ zone_spread_ok (r_zone ex_setpos) = true /\ 0 <= r_dur ex_setpos.
+Proof.
+  split; [|repeat split; try reflexivity; cbn; unfold DAY; lia].
+  constructor; cbn;
+    [repeat constructor; lia|repeat constructor; lia|repeat constructor; cbn; lia|left; reflexivity].
+Qed.
+
+Lemma ex_nth_ok : lists_ok ex_nth /\ 0 < r_interval ex_nth /\
+  rule_accepted ex_nth /\ zone_spread_ok (r_zone ex_nth) = true /\ 0 <= r_dur ex_nth.
+Proof.
+  split; [|repeat split; try reflexivity; cbn; unfold DAY; lia].
+  constructor; cbn;
+    [repeat constructor; lia|repeat constructor; lia|repeat constructor; cbn; lia|right; reflexivity].
+Qed.
+
+(* C07_forward_exact is not vacuous: the model answers Ok with a non-empty list on these rules
+   (January 2024 for the weekly rule — the excluded 15 January missing —, the first half of 2024
+   for the BYSETPOS rule, 2020..2027 for the yearly one) *)
+Example C07_forward_exact_instances :
+  (exists l, fetch_forward ex_weekly 1704000000 1707000000 = Ok l /\ length l = 5%nat) /\
+  (exists l, fetch_forward ex_setpos 1704000000 1720000000 = Ok l /\ length l = 13%nat) /\
+  (exists l, fetch_forward ex_nth 1580000000 1830000000 = Ok l /\ length l = 16%nat).
+Proof.
+  repeat split; eexists; (split; [vm_compute; reflexivity|reflexivity]).
+Qed.
+
+(* C07_forward_total is not vacuous: day 19765 = 2024-02-12, a Monday of an in-phase week, lies
+   two days or more after the local date of b = 1707000000 (day 19756) *)
+Example C07_forward_total_instance :
+  fetch_forward ex_weekly 1704000000 1707000000 = Ok (spec_occurrences ex_weekly 1704000000 1707000000).
+Proof.
+  destruct ex_weekly_ok as (Hok & _ & Hk & Hacc & Hz & Hdur).
+  apply (C07_forward_total ex_weekly 1704000000 1707000000 19765 Hok Hk Hacc Hz Hdur).
+  - lia.
+  - vm_compute. discriminate.
+  - vm_compute. reflexivity.
+  - vm_compute. split; discriminate.
+  - vm_compute. reflexivity.
+Qed.
+
+Example C07_forward_total_instance_setpos :
+  fetch_forward ex_setpos 1704000000 1720000000 = Ok (spec_occurrences ex_setpos 1704000000 1720000000).
+Proof.
+  destruct ex_setpos_ok as (Hok & Hk & Hacc & Hz & Hdur).
+  apply (C07_forward_total ex_setpos 1704000000 1720000000 19935 Hok Hk Hacc Hz Hdur).
+  - lia.
+  - vm_compute. discriminate.
+  - vm_compute. reflexivity.
+  - vm_compute. split; discriminate.
+  - vm_compute. reflexivity.
+Qed.
+
+(* fetch_window_independent is not vacuous *)
+Example fetch_window_independent_instance :
+  exists l l', fetch_forward ex_setpos 1706000000 1710000000 = Ok l /\
+               fetch_forward ex_setpos 1704000000 1720000000 = Ok l' /\
+               l <> [] /\ l <> l'.
+Proof. do 2 eexists. split; [vm_compute; reflexivity|]. split; [vm_compute; reflexivity|]. split; discriminate. Qed.
+
+(* the hypothesis of fetch_forward_no_raise cannot be dropped: with an interval beyond the year
+   number the look-back reaches before year 1 and _get_safe_anchor re-raises the ValueError *)
+Example fetch_forward_can_raise :
+  let r := mkRule Yearly 3000 [] [] [] [] [] (Some 1704096000) 7200 3600 utc_zone in
+  rule_accepted r /\ fetch_forward r 1580000000 1590000000 = Raised.
+Proof. cbv zeta. split; [unfold rule_accepted; cbn; unfold DAY; lia|vm_compute; reflexivity]. Qed.
+
+(* lists_ok's "plain weekdays only or n-th weekdays only" cannot be dropped either: dateutil reads a
+   BYDAY list mixing FR and 1FR as a conjunction (first Fridays only), the series (RFC 5545) as a
+   union (every Friday) — known finding KF-MIXED-BYDAY-C07; RecurringPattern accepts
+   day=["friday", "1FR"] *)
+Theorem C07_forward_exact_mixed_byday_refuted :
+  exists r a b l,
+    Forall (fun m => 1 <= m <= 12) (r_bymonth r) /\ Forall (fun e => e <> 0) (r_bymonthday r) /\
+    Forall (fun e => 0 <= fst e < 7) (r_byweekday r) /\
+    0 < r_interval r /\ rule_accepted r /\ zone_spread_ok (r_zone r) = true /\
+    fetch_forward r a b = Ok l /\ l <> spec_occurrences r a b.
+Proof.
+  exists (mkRule Monthly 1 [(4, None); (4, Some 1)] [] [] [] [] (Some 1704096000) 7200 3600 utc_zone),
+         1704000000, 1707000000.
+  eexists. split; [constructor|]. split; [constructor|].
+  split; [repeat constructor; cbn; lia|]. split; [cbn; lia|].
+  split; [unfold rule_accepted; cbn; unfold DAY; lia|]. split; [reflexivity|].
+  split; [vm_compute; reflexivity|]. vm_compute. discriminate.
+Qed.
+Print Assumptions C07_forward_exact_mixed_byday_refuted.
